@@ -67,7 +67,11 @@ TYPEMAP = [
     (r'\bbool\b', 'B'),
     (r'\bRealP?\b|\bdouble\b|\bfloat\b|\bP\b|\bint\b|\bT\b|\bE\b', 'S'),
 ]
+TYPEMAP.insert(0, (r'^(const )?Row<3, ?E>', 'V3'))      # (C25) a Row<3,E> used as a row initialiser of Mat<3,3,E>
+TYPEMAP.append((r'\bE[12VMR]\b|\bEResult\b|\bTInvert\b|\bStdNumber\b|\bMul\b', 'S'))   # (C25) element-type names of the SmallMatrix templates
 def ctype(q):
+    m25 = re.search(r'\b(Sym)?Mat<3,(?: ?3,)?[^<>]*>::TInvert\b', q)     # (C25) the inverse type of a 3x3 Mat / SymMat is again one
+    if m25: return 'SYM' if m25.group(1) else 'M33'
     q = re.sub(r'(typename\s+)?(\w+(<[^<>]*>)?::)+', '', q)     # drop scope qualifiers (Rotation_<P>::RealP -> RealP)
     for pat, t in TYPEMAP:
         if re.search(pat, q): return t
@@ -193,6 +197,8 @@ class Tr:
             callee = n['inner'][0]
             while callee['kind'] in SKIP: callee = callee['inner'][0]
             args = [self.expr(a, env) for a in n['inner'][1:] if a['kind'] != 'CXXDefaultArgExpr']
+            if callee['kind'] == 'DeclRefExpr' and callee['referencedDecl'].get('name') in env:   # (C25) m(i,j) / s(i,j) / v(i) / m(j): operator() on a variable in a template pattern
+                return self.paren_index(callee['referencedDecl']['name'], env[callee['referencedDecl']['name']], [strip(a) for a in n['inner'][1:]])
             if callee['kind'] in ('UnresolvedLookupExpr', 'DeclRefExpr'):
                 nm = callee.get('name') or callee['referencedDecl']['name']
                 return self.call(nm, args)
@@ -254,7 +260,29 @@ class Tr:
         if mem in ('transpose',) and ot == 'M33': return '(m33_T %s)' % obj, 'M33'
         if mem in ('asVec3', 'asVec4') and ot in DIM: return obj, ot
         if mem in ('asMat33', 'toMat33') and ot == 'M33' and not args: return obj, ot
+        if mem in ('getEltDiag', 'getEltUpper', 'getEltLower') and ot == 'SYM':     # (C25) SymMat element accessors with literal indices
+            ix = [re.fullmatch(r'\(nofZ K \((\d+)\)%Z\)', a) for a, _ in args]
+            if all(ix) and len(ix) in (1, 2):
+                return self.sym_elt(obj, *[int(m.group(1)) for m in (ix * 2)[:2]], how={'getEltDiag': 'diag', 'getEltUpper': 'upper', 'getEltLower': 'lower'}[mem])
         raise Untranslatable('member call %s on %s' % (mem, ot))
+    def sym_elt(self, s, i, j, how='()'):      # (C25) SymMat<3,E> (real E) stored as ((xx,yy,zz),(xy,xz,yz)) = (diag, lower[0..2])
+        # SymMat.h: operator()(i,j) = i==j ? diag[i] : getEltLower(i,j) ("must be i >= j", only asserted);  getEltLower(i,j) = lower[lowerIx(i,j)];
+        # getEltUpper(i,j) = upper[lowerIx(j,i)] (= lower for real E);  lowerIx(i,j) = (i-j-1) + j*(M-1) - j*(j-1)/2 is evaluated as written,
+        # also outside its contract j < i, which is what a Release (NDEBUG) build does.
+        if how == 'diag' or (how == '()' and i == j):
+            if not 0 <= i <= 2: raise Untranslatable('SymMat33 diagonal index')
+            return '(v3_%d (fst %s))' % (i, s), 'S'
+        if how == 'upper': i, j = j, i
+        ix = (i - j - 1) + j * 2 - (j * (j - 1)) // 2
+        if not 0 <= ix <= 2: raise Untranslatable('SymMat33 element (%d,%d) reads outside the stored lower triangle' % (i, j))
+        return '(v3_%d (snd %s))' % (ix, s), 'S'
+    def paren_index(self, nm, t, ixs):      # (C25) operator() with literal indices on a variable
+        if any(x['kind'] != 'IntegerLiteral' for x in ixs): raise Untranslatable('non-literal operator() index on ' + nm)
+        iv = [int(x['value']) for x in ixs]
+        if t == 'SYM' and len(iv) == 2: return self.sym_elt(nm, iv[0], iv[1])
+        if t == 'M33' and len(iv) == 2 and max(iv) <= 2: return '(m33_e %s %d %d)' % (nm, iv[0], iv[1]), 'S'
+        if len(iv) == 1: return self.index(nm, t, ixs[0], col=True)
+        raise Untranslatable('operator() on %s %s' % (t, iv))
     def index(self, b, bt, idx, col=False):
         if idx['kind'] != 'IntegerLiteral': raise Untranslatable('non-literal subscript')
         i = int(idx['value'])
@@ -269,6 +297,8 @@ class Tr:
             return '(%s, %s)' % (args[0][0], args[1][0]), 'SV'
         if t in DIM and len(args) == 1 and args[0][1] == 'S':     # Vec3(s): all elements s
             return '(' + ', '.join([args[0][0]] * DIM[t]) + ')', t
+        if t == 'M33' and len(args) == 3 and all(at == 'V3' for _, at in args):     # (C25) Mat<3,3,E>(Row<3,E>, Row<3,E>, Row<3,E>): three rows
+            return '(%s, %s, %s)' % tuple(a for a, _ in args), 'M33'
         if any(at != 'S' for _, at in args): raise Untranslatable('ctor args for ' + t)
         es = [a for a, _ in args]
         if t in DIM:
